@@ -1401,7 +1401,7 @@ func (e *Exec) rangeIter(fr *frame, in *ssa.Range, x Value) Value {
 		}
 		site := e.pos(fr, in)
 		e.noteMapRange(site, n)
-		if e.permuteMaps && n >= 2 && n <= 4 && e.prog.inModule(pkgPathOf(fr.fn)) && !(e.permuteSingle && e.permuteUsed) {
+		if e.permuteMaps && n >= 2 && n <= 4 && (e.prog.inModule(pkgPathOf(fr.fn)) || strings.HasSuffix(pkgPathOf(fr.fn), "/maps") || pkgPathOf(fr.fn) == "maps") && !(e.permuteSingle && e.permuteUsed) {
 			nperm := 1
 			for i := 2; i <= n; i++ {
 				nperm *= i
